@@ -31,6 +31,8 @@ KINDS = {
     "t3held":      (2800, 9000, (1,), ("honest", "refused")),
     "rlunreg":     (66000, 70000, (1,), ALL),
     "rlrare":      (2, 12, (1,), ALL),
+    "batchrot":    (60, 300, (1,), ALL),
+    "rekey":       (40, 200, (1,), ALL),
     "keyid":       (1100, 5000, (1,), ("honest", "same", "probe")),
     "varint":      (20000, 400000, (1,), ALL),
     "codec-t1":    (140000, 600000, (1,), ALL),
@@ -40,6 +42,7 @@ KINDS = {
     "ecdsa":       (700, 3000, (1,), ALL),
     "t1det":       (300, 1200, (1,), ALL),
     "t1final":     (300, 1200, (1,), ("honest", "refused")),
+    "t5final":     (300, 1200, (1,), ("honest", "refused")),
 }
 # kinds whose operations are expensive run a seeded share of the schedules in the quick tier
 SHARE = {"attester": 2, "rlissuer": 2, "t1det": 2, "ecdsa": 2, "batchissuer": 2, "batchissuer-ff": 3, "batchissuer-00": 3, "t5issue": 6, "rlunreg": 6, "rlrare": 6}
